@@ -317,6 +317,7 @@ def run_case(st, case):
                 seqs, l2 = [(16, 16, 33)], 65
             else:
                 first = True
+                produced = 0
                 for s_ in range(rng.choice([1, 1, 2, 3, 4])):
                     ll = rng.choice([rng.randrange(40), 15 + 255 * rng.randrange(4) + rng.randrange(-1, 2), rng.randrange(600)])
                     if first:
@@ -325,6 +326,8 @@ def run_case(st, case):
                     if first and rng.random() < 0.3:
                         ml = 2000 + rng.randrange(3000)
                     off = rng.choice([16, rng.randrange(1, 17), rng.randrange(16, 33) if ll >= 32 or not first else 16])
+                    off = min(off, produced + ll)          # never beyond the output produced so far
+                    produced += ll + ml
                     seqs.append((ll, off, ml)); first = False
                 l2 = rng.choice([5 + rng.randrange(80), 15 + 255 * rng.randrange(5) + rng.randrange(-1, 2), 64 + rng.randrange(1200)])
                 if seqs[-1][2] + l2 < 12:
